@@ -354,6 +354,12 @@ func c12Config(c *Ctx, idx int) {
 			r.Sample(map[string]interface{}{"config": cfgKey, "cell": desc.Key(), "consistency": clNames[spec.Consistency], "rewrite_expected": rewrite})
 		}
 	}
+	// the same comparison with the requests pipelined: bursts of writes (consistency inside the set, so each is re-encoded)
+	// and a few reads, written back to back on one connection before any reply is awaited; each request must arrive exactly
+	// once and be its own bytes with the consistency substituted
+	if len(set) > 0 {
+		c12Pipelined(c, rp, idx, cfgKey, set, inSet, override, isSelectID)
+	}
 	// a SELECT prepared a moment ago is still a SELECT: PREPARE a statement nobody has seen (large result metadata), EXECUTE
 	// it the moment the reply arrives with a consistency inside the set; it must reach the backend unmodified
 	if len(set) > 0 {
@@ -438,5 +444,157 @@ func runC12(c *Ctx) {
 			continue
 		}
 		c12Config(c, i)
+	}
+}
+
+// c12Pipelined: see the call site.
+func c12Pipelined(c *Ctx, rp *runProxy, idx int, cfgKey string, set []primitive.ConsistencyLevel, inSet map[primitive.ConsistencyLevel]bool, override primitive.ConsistencyLevel, isSelectID func([]byte) bool) {
+	r := c.R
+	rng := c.Rng(idx + 5000)
+	for round := 0; round < 3; round++ {
+		v := []primitive.ProtocolVersion{4, 5, 0x42}[(round+idx)%3]
+		comp := []string{"", "lz4", ""}[(round+idx/3)%3]
+		cl, err := rawcql.Dial(rp.addr, v, rp.log)
+		if err != nil || cl.Handshake(comp, 10*time.Second) != nil {
+			r.Inconc("c12 pipelined: cannot connect a client")
+			return
+		}
+		type item struct {
+			tok     string
+			spec    gen.ReqSpec
+			st      int16
+			ch      chan *rawcql.Frame
+			coff    int
+			rewrite bool
+			op      primitive.OpCode
+		}
+		var items []*item
+		var frames []*frame.Frame
+		n := 48 + rng.Intn(80)
+		for k := 0; k < n; k++ {
+			op := []primitive.OpCode{primitive.OpCodeQuery, primitive.OpCodeExecute, primitive.OpCodeBatch}[k%3]
+			tok := NewTok()
+			spec := gen.RandomSpec(rng, v, op, 512, tok)
+			spec.Stream = int16(k + 1)
+			if k%5 != 4 {
+				spec.Consistency = set[rng.Intn(len(set))]
+			}
+			if len(spec.Payload) > 1 { // a map of several entries may be re-encoded in another order; the sequential part covers it
+				spec.Payload = nil
+			}
+			if op == primitive.OpCodeExecute {
+				spec.QueryId = c03KnownID(rng.Intn(4))
+			}
+			for ci := range spec.Children {
+				if spec.Children[ci].Prepared {
+					spec.Children[ci].Id = c03KnownID(rng.Intn(4))
+				}
+			}
+			f, _ := gen.Build(spec)
+			lay := gen.LayoutOf(f)
+			coff := -1
+			for _, fl := range lay.Fields {
+				if fl.Kind == gen.FConsistency {
+					coff = fl.Off
+				}
+			}
+			rewrite := false
+			switch op {
+			case primitive.OpCodeQuery:
+				rewrite = !spec.Select && inSet[spec.Consistency]
+			case primitive.OpCodeExecute:
+				rewrite = !isSelectID(spec.QueryId) && inSet[spec.Consistency]
+			case primitive.OpCodeBatch:
+				rewrite = inSet[spec.Consistency]
+			}
+			items = append(items, &item{tok: tok, spec: spec, st: spec.Stream, coff: coff, rewrite: rewrite, op: op})
+			frames = append(frames, f)
+		}
+		mark := rp.log.Len()
+		for i, f := range frames {
+			items[i].ch = cl.Expect(items[i].st)
+			if err := cl.SendF(f); err != nil {
+				break
+			}
+		}
+		answered := 0
+		for _, it := range items {
+			if it.ch == nil {
+				continue
+			}
+			if f, err := cl.Wait(it.ch, 20*time.Second); err == nil && f != nil {
+				answered++
+			}
+		}
+		evs := rp.log.Snapshot()[mark:]
+		sent := map[string]mon.Event{}
+		arrivals := map[string][]mon.Event{}
+		for _, e := range evs {
+			if e.Src == "client" && e.K == "send" && e.Cl == cl.ID && e.Tok != "" {
+				sent[e.Tok] = e
+			}
+			if e.Src == "backend" && e.K == "recv" && e.Tok != "" && e.Arrival > 0 {
+				arrivals[e.Tok] = append(arrivals[e.Tok], e)
+			}
+		}
+		bad := map[string]int{}
+		var first string
+		for _, it := range items {
+			se, ok := sent[it.tok]
+			if !ok {
+				continue
+			}
+			r.Eval(1)
+			r.Obs("pipelined_requests", 1)
+			as := arrivals[it.tok]
+			plainSent := se.Body
+			if primitive.HeaderFlag(se.Fl).Contains(primitive.HeaderFlagCompressed) {
+				plainSent, _ = fakecass.Decompress(comp, se.Body)
+			}
+			if it.coff < 0 || it.coff+2 > len(plainSent) {
+				continue
+			}
+			want := plainSent
+			if it.rewrite {
+				want = append([]byte{}, plainSent...)
+				binary.BigEndian.PutUint16(want[it.coff:], uint16(override))
+				r.Obs("pipelined_rewrites_expected", 1)
+			}
+			what := ""
+			switch {
+			case len(as) == 0:
+				what = "never-reached-a-backend"
+			case len(as) > 1:
+				what = "reached-backends-more-than-once"
+			default:
+				got := as[0].Body
+				if primitive.HeaderFlag(as[0].Fl).Contains(primitive.HeaderFlagCompressed) {
+					got, _ = fakecass.Decompress(as[0].Comp, as[0].Body)
+				}
+				if !bytes.Equal(got, want) {
+					what = "body-differs"
+					if it.rewrite && bytes.Equal(got, plainSent) {
+						what = "consistency-not-rewritten"
+					}
+				}
+			}
+			if what != "" {
+				bad[what+"/"+map[primitive.OpCode]string{primitive.OpCodeQuery: "query", primitive.OpCodeExecute: "execute", primitive.OpCodeBatch: "batch"}[it.op]]++
+				if first == "" {
+					first = fmt.Sprintf("token %s on stream %d (consistency %s, rewrite expected: %v): %s", it.tok, it.st, clNames[it.spec.Consistency], it.rewrite, what)
+				}
+			}
+		}
+		r.NonTrivial(fmt.Sprintf("pipelined/%s/v%d/%s/n=%d", cfgKey, v, comp, n))
+		for what, cnt := range bad {
+			r.Violate(mon.Violation{Signature: "C12/pipelined/" + what, Detail: fmt.Sprintf("config %s: %d requests written back to back on one v%d %q connection (%d answered): %d of them %s; e.g. %s", cfgKey, n, v, comp, answered, cnt, what, first),
+				Scenario: map[string]interface{}{"kind": "c12-pipelined", "idx": idx, "round": round}})
+		}
+		cl.Close()
+		if len(bad) > 0 {
+			rp.cluster.KillPooled(false, 1, 2)
+			time.Sleep(300 * time.Millisecond)
+			return
+		}
 	}
 }
